@@ -11,6 +11,7 @@ void Kernel::reset(int64_t epoch_ms) {
 	now_ms = epoch_ms;
 	elapsed_ms = 0;
 	seq = 0;
+	seq_ms.clear();
 	hash = 0xcbf29ce484222325ULL;
 	log.clear();
 	counters.clear();
@@ -31,6 +32,8 @@ uint64_t Kernel::ev(const char *fmt, ...) {
 	if (n < 0) n = 0;
 	if (n >= (int)sizeof buf) n = sizeof buf - 1;
 	++seq;
+	if (seq_ms.size() <= seq) seq_ms.resize(seq + 1, now_ms);
+	seq_ms[seq] = now_ms;
 	uint64_t h = hash;
 	for (int i = 0; i < n; i++) { h ^= (unsigned char)buf[i]; h *= 0x100000001b3ULL; }
 	h ^= 0x0a; h *= 0x100000001b3ULL;
